@@ -160,7 +160,7 @@ class RenderLod(Harness):
 def harnesses(tier):
     q = tier == "quick"
     hs = [RenderFrame(["i"], 2), RenderFrame(["f"], 1 if q else 2), RenderFrame(["T", "i"], 1 if q else 2), RenderFrame(["O", "D"], 2),
-          RenderFrame(["i"], 1, cls="GeoJSON"), RenderFrame([], 0)]
+          RenderFrame(["i"], 2, cls="GeoJSON"), RenderFrame([], 0)]
     for k in ("i", "f", "T", "O", "b", "D"):
         hs.append(RenderVector(k, 2))
     hs.append(RenderLod(2))
